@@ -38,9 +38,11 @@ func (pass *AddFields) processObject(_ *Visitor, _ *ast.Schema, object ast.Objec
 			continue
 		}
 
-		field.AddToPassesTrail("AddFields[created]")
+		// the object gets its own copy: later passes rewrite the fields they find in place
+		newField := field.DeepCopy()
+		newField.AddToPassesTrail("AddFields[created]")
 
-		object.Type.Struct.Fields = append(object.Type.Struct.Fields, field)
+		object.Type.Struct.Fields = append(object.Type.Struct.Fields, newField)
 	}
 
 	return object, nil
